@@ -46,6 +46,8 @@ TRUSTED_BASE = [
     'jsonschema validation of requests (only accepted requests reach the model), Python dict order, hashlib.sha256',
 ]
 ASSUMPTIONS = [
+    'time-derived attributes are not compared across the restart: uptime, date (device and cached slave attributes), last_sync of '
+    'slave devices, last_sync of ports of devices that are polled again (only: a number, not earlier than before), online; '
     'a restart happens after the save loop has flushed (persist_interval): ports marked by save_asap() less than '
     'persist_interval before a shutdown are not saved by cleanup() (see notes: observation O2)',
     'attributes whose definition says persisted: False, the read-only runtime attributes (online, last_sync, uptime, date, '
@@ -441,7 +443,17 @@ def oracle(case, res):
         if target is None:
             add(kind(pid), '<port>', 'port %s exists before the restart and is missing %s' % (pid, when), {'before': port_view(bp)})
             continue
-        d = diff(port_view(bp), port_view(target))
+        vb, vt = port_view(bp), port_view(target)
+        if owner in polled:
+            # last_sync of a port of a device that is polled again is the time of the new poll: comparing it would compare
+            # clocks.  Required only: a number (or absent), not earlier than before.  (Ports of permanently offline devices: nothing
+            # refreshes it, it is restored from the record and compared like any attribute.)
+            lb, lt = vb.pop('last_sync', None), vt.pop('last_sync', None)
+            num = lambda v: v is None or (isinstance(v, (int, float)) and not isinstance(v, bool))  # noqa: E731
+            if not (num(lb) and num(lt)) or (lb is not None and lt is not None and lt < lb):
+                add('slave-port', 'last_sync', 'port %s: last_sync is %s before the restart and %s %s (not a number, or earlier)' % (
+                    pid, json.dumps(lb), json.dumps(lt), when), {'before': lb, 'after': lt})
+        d = diff(vb, vt)
         for f, (x, y) in sorted(d.items()):
             failed = [o for o, lg in zip(case['ops'], res['log']) if o['op'] == 'patch_port' and o['id'] == pid and lg[0] >= 400
                       and f in o['attrs'] and same_value(port_view({f: o['attrs'][f]}).get(f), x)]
@@ -943,7 +955,7 @@ def check(ctx, res):
     corpus = load_corpus()
     if corpus:
         run_batch(ctx, res, corpus, 'c07corpus', do_shrink=False)
-    n = ctx.n(150, 5000)
+    n = ctx.n(150, 3000)
     n_file = max(10, n // 5)
     done = 0
     while done < n - n_file:
@@ -963,7 +975,7 @@ def check(ctx, res):
     res['extra']['two_process_histories'] = m
     ok, why = redis_usable()
     if ok:
-        run_batch(ctx, res, [gen_case(ctx.rng, 300000 + i) for i in range(ctx.n(20, 500))], 'c07redis', driver='redis', tie=False)
+        run_batch(ctx, res, [gen_case(ctx.rng, 300000 + i) for i in range(ctx.n(20, 300))], 'c07redis', driver='redis', tie=False)
     else:
         res['extra']['driver:redis'] = 'not run: ' + why
 
